@@ -216,7 +216,7 @@ def s5(chk: Check, proj: Project, w) -> None:
         for st in stmts(f):
             if isinstance(st, ast.If):
                 t = st.test
-                attrs = {norm(x) for x in ast.walk(t) if isinstance(x, ast.Attribute) and x.attr in ("js", "css") and isinstance(x.value, ast.Name) and x.value.id == "comp_cls"}
+                attrs = {norm(x) for x in ast.walk(t) if isinstance(x, ast.Attribute) and x.attr in ("js", "css") and isinstance(x.value, ast.Name)}
                 for a in sorted(attrs):
                     n += 1
                     ok = f"is_nonempty_str({a})" in norm(t)
